@@ -440,7 +440,7 @@ impl Property for C11 {
     type Case = Case;
     const ID: &'static str = "C11";
     fn cases(tier: Tier) -> u64 {
-        tier.pick(2_400, 80_000)
+        tier.pick(12_000, 150_000)
     }
     fn strategy(_tier: Tier) -> BoxedStrategy<Case> {
         let class = prop_oneof![
